@@ -287,7 +287,14 @@ class Signed(BitVector):
 
         if rhs == 0:
             return Signed[result_width]()
-        return Signed[result_width](int(lhs / rhs))
+
+        quotient = int(lhs / rhs)
+
+        if quotient == 2 ** (result_width - 1):
+            # min / -1 is the only quotient that overflows, it wraps like the generated VHDL
+            quotient = -quotient
+
+        return Signed[result_width](quotient)
 
     @_intrinsic
     def _cohdl_rtruncdiv_(self, lhs: Signed) -> Signed:
@@ -304,7 +311,14 @@ class Signed(BitVector):
 
         if rhs == 0:
             return Signed[result_width]()
-        return Signed[result_width](int(lhs / rhs))
+
+        quotient = int(lhs / rhs)
+
+        if quotient == 2 ** (result_width - 1):
+            # min / -1 is the only quotient that overflows, it wraps like the generated VHDL
+            quotient = -quotient
+
+        return Signed[result_width](quotient)
 
     @_intrinsic
     def __mod__(self, rhs: Signed) -> Signed:
